@@ -457,4 +457,63 @@ end
   exact bssFast_eq l lo hi
 
 
+
+/-! ## the query object: one `query()` followed by a sequence of `page_search` calls
+
+`IndexedDatabase::query` computes the precursor index range once and stores it with the tolerances in an
+`IndexedQuery`; `page_search(&self, mz, charge)` only READS that object. `IQuery` / `mkQuery` /
+`IQuery.pageSearch` mirror exactly this split; `runSeq` is a sequence of lookups through ONE query object
+(what the scorer does: `for peak { for charge in 1..zmax { page_search(peak.mass, charge) } }`, whose
+masses are not monotone). `lookup` is the from-scratch reference: a fresh query for every lookup. -/
+
+structure IQuery (α : Type) where
+  preTol : Tol α
+  fragTol : Tol α
+  preMass : α
+  preIdxLo : Nat
+  preIdxHi : Nat
+
+section iquery
+variable [Add α] [Mul α] [Div α] [LT α] [DecidableLT α] [LE α] [DecidableLE α]
+
+/-- `IndexedDatabase::query(precursor_mass, precursor_tol, fragment_tol)` -/
+def mkQuery (million hundred : α) (masses : Array α) (preTol fragTol : Tol α) (preMass : α) : IQuery α :=
+  let p := preTol.bounds million hundred preMass
+  let r := bssWith binSearch masses p.1 p.2
+  { preTol := preTol, fragTol := fragTol, preMass := preMass, preIdxLo := r.1, preIdxHi := r.2 }
+
+/-- `IndexedQuery::page_search(&self, fragment_mz, charge)`: reads the query object, returns no new state.
+    `none` = the `unreachable!` panic on a `Pct` fragment tolerance. -/
+def IQuery.pageSearch (million hundred : α) (iq : IQuery α) (masses minv : Array α) (frags : List (Frag α))
+    (B : Nat) (mz charge : α) : Option (List (Frag α)) :=
+  match window million hundred iq.preTol iq.fragTol iq.preMass mz charge with
+  | none => none
+  | some q =>
+    let pg := bssWith binSearch minv q.fragLo q.fragHi
+    some ((List.range' pg.1 (pg.2 - pg.1)).flatMap fun p =>
+      let s := slice frags B p
+      let ix := bssWith binSearch (s.map (·.pep)).toArray iq.preIdxLo iq.preIdxHi
+      ((s.drop ix.1).take (ix.2 - ix.1)).filter (edgeFilter masses q iq.preIdxLo iq.preIdxHi))
+
+/-- a sequence of lookups `(mz, charge)` through ONE query object, in the given order -/
+def runSeq (million hundred : α) (iq : IQuery α) (masses minv : Array α) (frags : List (Frag α)) (B : Nat)
+    (l : List (α × α)) : List (Option (List (Frag α))) :=
+  l.map fun x => iq.pageSearch million hundred masses minv frags B x.1 x.2
+
+/-- the reference: a fresh query for this one lookup — a function of the database, the query parameters
+    and `(mz, charge)` only -/
+def lookup (million hundred : α) (masses minv : Array α) (frags : List (Frag α)) (B : Nat)
+    (preTol fragTol : Tol α) (preMass mz charge : α) : Option (List (Frag α)) :=
+  (window million hundred preTol fragTol preMass mz charge).map (pageSearchC masses minv frags B)
+
+/-- a lookup through a query object is the from-scratch lookup (core-only proof; used by the driver's model) -/
+theorem IQuery.pageSearch_eq_lookup (million hundred : α) (masses minv : Array α) (frags : List (Frag α))
+    (B : Nat) (preTol fragTol : Tol α) (preMass mz charge : α) :
+    (mkQuery million hundred masses preTol fragTol preMass).pageSearch million hundred masses minv frags B mz charge
+      = lookup million hundred masses minv frags B preTol fragTol preMass mz charge := by
+  unfold IQuery.pageSearch lookup mkQuery
+  cases fragTol <;> rfl
+
+end iquery
+
 end Sage.C03
